@@ -424,7 +424,15 @@ class ConnectionState:
             func: _CommandFunc = getattr(self, func_name)
         except AttributeError:
             return ResponseNo(cmd.tag, cmd.command + b': Not Implemented')
-        response, selected = await func(cmd)
+        try:
+            response, selected = await func(cmd)
+        except Exception:
+            if self._selected is not None:
+                # The command failed, so the response that the EXPUNGE
+                # responses were being held back for is not sent. Without
+                # this, they would be held back during the next command.
+                self._selected.hide_expunged = False
+            raise
         if selected is not None:
             self._selected, untagged = selected.fork(cmd)
             response.add_untagged(*untagged)
